@@ -236,4 +236,64 @@ theorem C05A_queued_history_partial (fin0 : Nat) (cfg : Cfg) (sc : Script) (kd :
     simp only [C07.obsC07, List.filter_append] at this ⊢
     exact List.append_cancel_left this
 
+/-! ### non-vacuity
+
+Two models; event 0 moves a model from state 0 to state 1, its `before` stage holds TWO callbacks — 10, a suspending
+coroutine that (first invocation) awaits three further triggers, next to the coroutine 11: outside the regime
+`WellStaged` of C07 — event 1 is internal with `before = [20]`, which raises at its second invocation.  First
+top-level call (tag 0, model 0): the awaited triggers (tags 1, 2, 3) are deferred and return True; tag 1 (model 1)
+is processed, tag 2 (model 0) raises: the exception escapes call 0 and the pending call of tag 3 is discarded.  The
+second top-level call (tag 4) starts from an empty queue. -/
+
+def exCfg5A : Cfg :=
+  { states := [{ name := 0, onExit := [30] }, { name := 1 }],
+    events := [(0, [{ source := 0, dest := some 1, before := [10, 11], after := [12] }]),
+               (1, [{ source := 0, dest := none, before := [20] }, { source := 1, dest := none, before := [20] }])],
+    finalize := [90, 91], queued := true, initial := 0 }
+
+def exScript5A : Script := fun c k =>
+  if c = 10 ∧ k = 0 then { cmds := [.trigger 1 1, .trigger 0 1, .trigger 1 0] }
+  else if c = 20 ∧ k = 1 then { out := .raise (.user 3) }
+  else {}
+
+def exKinds5A : Async.Kinds := fun c => if c = 10 ∨ c = 91 then 2 else if c = 11 then 1 else 0
+
+/-- `(callback, model, tag)` of the callback starts of a trace -/
+def callsOf5A (l : List Item) : List (Nat × Nat × Nat) :=
+  l.filterMap fun i => match i with
+    | .call _ c m t _ => some (c, m, t)
+    | _ => none
+
+/-- `(tag, outcome)`: 1 = returned True, 0 = returned False, 2 = raised -/
+def outsOf5A (l : List Item) : List (Nat × Nat) :=
+  l.filterMap fun i => match i with
+    | .ret t b => some (t, if b then 1 else 0)
+    | .raised t _ => some (t, 2)
+    | _ => none
+
+-- the hypotheses of `C05A_queued_history` hold for it
+example : exCfg5A.finalize = 90 :: [91] ∧ 90 ∉ [91] ∧ (St.init exCfg5A [0, 1]).queue = [] := by decide
+
+/-- the run completes (46 items, queue empty): the events are processed in arrival order (tags 0, 1, 2, then 4 —
+nothing of tag 3), the deferred calls returned True, call 0 raised; the acceptor accepts the raw trace and the
+observed one -/
+example :
+    ((Async.runHistory exScript5A exKinds5A exCfg5A 1 16 3 [.trigger 0 0, .trigger 1 0] (St.init exCfg5A [0, 1])).map
+      fun s => (s.log.length, s.queue.length, idle 90 2 s.log, idle 90 2 (C07.obsC07 exCfg5A exScript5A s.log))) =
+      some (46, 0, true, true) ∧
+    ((Async.runHistory exScript5A exKinds5A exCfg5A 1 16 3 [.trigger 0 0, .trigger 1 0] (St.init exCfg5A [0, 1])).map
+      fun s => callsOf5A s.log) =
+      some [(10, 0, 0), (11, 0, 0), (30, 0, 0), (12, 0, 0), (90, 0, 0), (91, 0, 0), (20, 1, 1), (90, 1, 1), (91, 1, 1),
+            (20, 0, 2), (90, 0, 2), (91, 0, 2), (10, 1, 4), (11, 1, 4), (30, 1, 4), (12, 1, 4), (90, 1, 4), (91, 1, 4)] ∧
+    ((Async.runHistory exScript5A exKinds5A exCfg5A 1 16 3 [.trigger 0 0, .trigger 1 0] (St.init exCfg5A [0, 1])).map
+      fun s => outsOf5A s.log) = some [(1, 1), (2, 1), (3, 1), (0, 2), (4, 1)] := by
+  decide
+
+/-- the raw async trace really differs from the synchronous one (the suspended callbacks finish later) -/
+example :
+    ((Async.runHistory exScript5A exKinds5A exCfg5A 1 16 3 [.trigger 0 0, .trigger 1 0] (St.init exCfg5A [0, 1])).map
+      (·.log)) ≠
+    ((runHistory exScript5A exCfg5A 16 3 [.trigger 0 0, .trigger 1 0] (St.init exCfg5A [0, 1])).map (·.log)) := by
+  decide
+
 end TM
